@@ -560,17 +560,19 @@ def main(argv):
     rr = tlc.run(d, "Loader", LIFE_CFG.format(closes="FALSE", lc="exact"), timeout=1500)
     if rr.violated != "HandleClosedAtEnd":
         raise MachineryError("spec self-test: an entry point without finally was not reported")
-    for lc in ("wrapping", "none"):
+    for lc in ("wrapping", "none", "declared"):
         rr = tlc.run(d, "Loader", LIFE_CFG.format(closes="TRUE", lc=lc), timeout=1500)
         if rr.violated != "MemoryProportional":
             raise MachineryError("spec self-test: a %s length check was not reported (%s)" % (lc, rr.violated))
     cov["spec_selftest"] = ("entry point without finally -> HandleClosedAtEnd violated; length check in wrapping arithmetic / "
-                            "absent -> MemoryProportional violated, as expected")
+                            "absent / against another header field -> MemoryProportional violated, as expected")
     r = tlc.must(tlc.run(d, "Loader", CLASS_CFG, workers=1, timeout=900), "value classes")
     note("value classes of a numeric field", r)
     if len(r.printed) != 1:
         raise MachineryError("value classes not emitted")
-    ints, reals, structs = (sorted(r.printed[0][k], key=lambda c: json.dumps(c, sort_keys=True)) for k in ("ints", "reals", "structs"))
+    ints, reals, structs, pairs = (sorted(r.printed[0][k], key=lambda c: json.dumps(c, sort_keys=True)) for k in ("ints", "reals", "structs", "pairs"))
+    if len(pairs) < 16:
+        raise MachineryError("too few class pairs: %d" % len(pairs))
     if any(c not in ints for c in F.ESSENTIAL):
         raise MachineryError("a class the quick tier always applies is not among the classes TLC emitted")
     if len(ints) < 60 or len(reals) < 8 or len(structs) < 8:
@@ -589,6 +591,12 @@ def main(argv):
     if len(extra) < 6:
         raise MachineryError("too few container / flavour seeds: %s" % sorted(extra))
     sd.update(extra)
+    asm = F.assembly_seeds(tm)
+    if "3mf@assembly" not in asm:
+        raise MachineryError("instanced scene could not be exported: %s" % sorted(asm))
+    asm.pop("glb@assembly", None)        # node graphs of glTF are covered by glb@nested + json_structure
+    sd.update(asm)
+    light = set(asm)                     # seeds for the structural families only: no byte-level enumeration of their own
     quick = tier == "quick"
     rs = np.random.RandomState(seed() + 20)
     others = list(sd.values())
@@ -626,6 +634,8 @@ def main(argv):
         # the valid file itself through every entry point, by path and by object
         for _ in range(6):
             add(key, data, "valid")
+        if key in light:
+            continue
         # TLC fault sequences
         for fi, fs in enumerate(faultseqs):
             if (fi + si) % stride_f:
@@ -640,7 +650,8 @@ def main(argv):
         if file_type_of(key) in ("glb", "gltf"):
             for mnum in list(re.finditer(rb'"(byteStride|count|byteOffset|byteLength|componentType|bufferView|buffer|mode)"\s*:\s*(\d+)', data))[:40]:
                 a, b = mnum.span(2)
-                for val in (b"0", b"1", b"92", b"999999", b"1048576"):
+                # (quick: two values; the region is also covered by numeric_token, glb_rewrite and json_structure)
+                for val in ((b"0", b"999999") if tier == "quick" else (b"0", b"1", b"92", b"999999", b"1048576")):
                     if len(val) <= b - a:
                         add(key, data[:a] + val.rjust(b - a, b" ") + data[b:], {"json_field": mnum.group(1).decode(), "value": val.decode()})
         if file_type_of(key) == "glb":
@@ -669,6 +680,23 @@ def main(argv):
         flds = F.binary_fields(key, data)
         for how, mutated in F.field_family(data, flds, ints, rs, quick and file_type_of(key) != "stl"):
             add(key, mutated, how, fam="binary_field")
+    # ---- pairs of adjacent fields corrupted together, each pair by path and by file object
+    for key, data in sorted(sd.items()):
+        flds = F.binary_fields(key, data)
+        zipped = file_type_of(key) in ("3mf", "zip", "zae")
+        for how, mutated in F.pair_family(data, flds, pairs, rs, limit=(6 if quick else 24) if zipped else None):
+            for bp in (True, False):
+                add(key, mutated, how, fam="field_pair", bypath=bp)
+    # ---- references between the parts of an XML payload pointed at every other part (cycles, self references)
+    for key, data in sorted(sd.items()):
+        for how, mutated in F.reference_family(key, data, rs, limit=60 if quick else 600):
+            add(key, mutated, how, fam="reference")
+    # ---- drawings that still parse but whose construction fails afterwards, through load_path and load, by path and by object
+    for key, data in sorted(sd.items()):
+        if file_type_of(key) in path_types:
+            for how, mutated in F.post_parse_family(key, data, reals, rs, 24 if quick else 200):
+                for e, bp in (("load_path", True), ("load_path", False), ("load", True)):
+                    add(key, mutated, how, fam="post_parse", entry=e, bypath=bp)
     nvar = 0
     for vkey, vdata in F.ply_variants(rs, quick):
         nvar += 1
@@ -708,7 +736,8 @@ def main(argv):
             j, dsc = jobs[cand[i]], desc[cand[i]]
             add(dsc["seed"], bytes.fromhex(j["hex"]), dsc["how"], fam="call_variant", mode=mode, entry=j["entry"], bypath=j["bypath"])
     # no family may come out (nearly) empty
-    need = {"numeric_token": 2000, "binary_field": 300, "ply_flavour": 300, "json_structure": 300, "sidecar": 150, "call_variant": 500, "valid_geometry": 150}
+    need = {"numeric_token": 2000, "binary_field": 300, "ply_flavour": 300, "json_structure": 300, "sidecar": 150, "call_variant": 500, "valid_geometry": 150,
+            "field_pair": 300, "reference": 30, "post_parse": 150}
     for fam, lo in need.items():
         if fam_count.get(fam, 0) < lo:
             raise MachineryError("family %s nearly empty: %d records" % (fam, fam_count.get(fam, 0)))
